@@ -284,9 +284,26 @@ CLAIMED = {
           "sigma_clip for the re-estimate."),
     technique="TLA+ model (TLC exhaustive) + spec-generated behaviours replayed on the implementation; moments as z-score projections",
     design_ref="DESIGN.md 4.3, 5 (C11), 9", engine="noise"),
+ "C12": dict(
+    text=("A two-run property decided with behaviours generated by the existing specifications. Backend.tla's "
+          "HistoryIndependence / PktIdxStep over two recordings per process and three header-dictionary modes (shared "
+          "default, same dict passed again, fresh dict) is model-checked and replayed: request sequence, files, PKTIDX and "
+          "every header card of the second recording must equal the first's, its data bytes must equal the reference "
+          "pipeline fed by a same-seed twin antenna (what a fresh backend in the same antenna state would write), and the "
+          "caller's dictionary must be unchanged. Every recording behaviour, every Stream.tla request sequence and seeded "
+          "frame scripts (chi2 / table / gaussian noise, RFI path, pulse profile) are executed twice in fresh object graphs "
+          "(bit-identical bytes / voltages / data required) and once with different seeds (different output required; "
+          "polarisations and antennas must not share noise). FrameLife.tla behaviours judge copies, pickle round trips "
+          "(dumps/loads and save_pickle/load_pickle) and loaded frames: equal to the original in every projected "
+          "attribute (incl. a replaced time axis) and unchanged when any other object is mutated."),
+    note=("Trusted: as C02 / C03 / C10. The channelised-noise estimate used for injection onto RAW is deterministic only if "
+          "the user seeds it beforehand (estimate_channelized_stds(seed=...)); the backend's lazy call is unseeded by "
+          "design of the API and is not judged."),
+    technique="TLA+ models (TLC exhaustive) + spec-generated behaviours executed twice on the implementation (same seeds / different seeds)",
+    design_ref="DESIGN.md 4.4, 4.7, 4.10, 5 (C12)", engine="backend+stream+framelife"),
 }
 
-NOT_YET = "check not built yet in this round (planned, see DESIGN.md 5); no claim is made"
+NOT_YET = "no check (see DESIGN.md)"
 
 
 def main():
